@@ -118,7 +118,8 @@ theorem run_validates_ok (sch inj) (kw : List (Nat × In)) (k : Prog) (s : St) (
   | nil => simp [validates]
   | cons a kw ih =>
     simp only [allOk, List.all_cons, Bool.and_eq_true] at h
-    simp only [validates, List.foldr_cons, run, h.1, if_true]
+    have h1 : a.2.fromOk = true ∧ a.2.toOk = true := by simpa [In.isOk] using h.1
+    simp only [validates, List.foldr_cons, run, h1.1, h1.2, if_true]
     exact ih h.2
 
 theorem run_validates_bad (sch inj) (kw : List (Nat × In)) (k : Prog) (s : St) (h : allOk kw = false) :
@@ -127,11 +128,13 @@ theorem run_validates_bad (sch inj) (kw : List (Nat × In)) (k : Prog) (s : St) 
   | nil => simp [allOk] at h
   | cons a kw ih =>
     simp only [validates, List.foldr_cons, run]
-    by_cases ha : a.2.isOk = true
-    · simp only [ha, if_true]
-      apply ih
-      simp only [allOk, List.all_cons, ha, Bool.true_and] at h
-      exact h
+    by_cases ha : a.2.fromOk = true
+    · by_cases hb : a.2.toOk = true
+      · simp only [ha, hb, if_true]
+        apply ih
+        simp only [allOk, List.all_cons, In.isOk, ha, hb, Bool.and_self, Bool.true_and] at h
+        exact h
+      · simp [ha, hb]
     · simp [ha]
 
 theorem run_validates (sch inj) (kw : List (Nat × In)) (k : Prog) (s : St) :
